@@ -56,10 +56,14 @@ impl GC {
         }
     }
 
-    /// Sweeps all objects
+    /// Frees all objects managed by this garbage collector
     /// This is automatically called once the Garbage Collector is dropped
     pub fn destroy(&mut self) {
-        self.sweep();
+        for object in self.objects.drain(..) {
+            debug_assert!(object.is_heap_allocated());
+            object.free();
+        }
+        self.mark_bitmap.clear();
     }
 
     /// Runs a full mark & sweep cycle
@@ -71,6 +75,7 @@ impl GC {
         }
 
         self.mark_bitmap.clear();
+        self.mark_bitmap.resize(self.objects.len(), false);
 
         // Mark all reachable objects
         for root in roots.iter() {
@@ -103,34 +108,33 @@ impl GC {
             return;
         }
 
-        let index = unsafe {
-            let object_ptr: *mut Object = o.as_ptr().cast();
-            let universe_ptr: *const Object = self.objects.as_ptr().cast();
-            object_ptr.offset_from(universe_ptr) as usize
+        // Objects that are not managed by this collector are none of our business
+        let index = match self
+            .objects
+            .iter()
+            .position(|a| std::ptr::eq(a.as_ptr(), o.as_ptr()))
+        {
+            Some(index) => index,
+            None => return,
         };
-        debug_assert!(index < self.objects.len());
 
         if o.tag() == Type::Array {
-            // Safety: we know the size of mark_bitmap.
-            unsafe {
-                // No need to mark recursively on arrays if this one was
-                // already marked (e.g. because the same object was found
-                // in multiple places such as the stack and the result of
-                // a function call).
-                if !self.mark_bitmap.get_unchecked(index) {
-                    self.mark_bitmap.set_unchecked(index, true);
+            // No need to mark recursively on arrays if this one was
+            // already marked (e.g. because the same object was found
+            // in multiple places such as the stack and the result of
+            // a function call).
+            if !self.mark_bitmap[index] {
+                self.mark_bitmap.set(index, true);
 
-                    // Safety: we already checked the type.
+                // Safety: we already checked the type.
+                unsafe {
                     for v in o.as_vec_unchecked() {
                         self.mark(v);
                     }
                 }
             }
         } else {
-            unsafe {
-                // Safety: we know the size of mark_bitmap.
-                self.mark_bitmap.set_unchecked(index, true);
-            }
+            self.mark_bitmap.set(index, true);
         }
     }
 }
